@@ -27,7 +27,9 @@ import (
 	"strconv"
 	"strings"
 	"sync"
+	"sync/atomic"
 	"testing"
+	"time"
 )
 
 const maxSamples = 6
@@ -37,6 +39,8 @@ const maxHashes = 1 << 20
 type Unit struct {
 	Prop string
 	Name string
+
+	explicitJournal atomic.Bool // the unit journals every case itself (Journal)
 
 	mu          sync.Mutex
 	evals       int64
@@ -244,6 +248,11 @@ func (u *Unit) Fail(c any, format string, args ...any) string {
 // Journal writes the case about to be executed, for units in which the code
 // under test may kill the process (panic in a goroutine the harness does not own).
 func (u *Unit) Journal(c any) {
+	u.explicitJournal.Store(true)
+	u.journal(c)
+}
+
+func (u *Unit) journal(c any) {
 	if p := outPath(u.Name, "journal.json"); p != "" {
 		b, _ := json.Marshal(failFile{Property: u.Prop, Unit: u.Name, Message: "process died while executing this case", Case: encode(c)})
 		_ = os.WriteFile(p, b, 0o644)
@@ -339,10 +348,25 @@ func Safely(f func() error) (err error) {
 	return f()
 }
 
+const lateJournalAfter = 5 * time.Second
+
 // Run records the case, executes it and fails ft with a replay file on error.
 func Run[C any](u *Unit, t *testing.T, ft Fataler, c C, nontrivial bool, labels []string, run func(t *testing.T, c C) error) {
 	u.Case(c, nontrivial, labels...)
+	// A case that is still running after a few seconds is journalled (if the unit does not journal every case
+	// itself): should it never return, the driver finds the case that hangs and re-runs it alone.
+	var late atomic.Bool
+	timer := time.AfterFunc(lateJournalAfter, func() {
+		if !u.explicitJournal.Load() {
+			late.Store(true)
+			u.journal(c)
+		}
+	})
 	err := Safely(func() error { return run(t, c) })
+	timer.Stop()
+	if late.Load() && !u.explicitJournal.Load() {
+		u.JournalDone()
+	}
 	if err != nil {
 		if Inconclusive(err) {
 			// the harness could not set the case up (environment hiccup): never a violation
